@@ -240,8 +240,11 @@ func (e *Engine) splitCases(c *Contract) []splitCase {
 		if strings.HasPrefix(sp.Text, "dyn ") {
 			// three variants of an interface parameter: nil / dynamic type *T (T a struct of this package) / any other type
 			f := strings.Fields(strings.TrimPrefix(sp.Text, "dyn "))
+			if len(f) == 3 && f[2] == "value" {
+				f = []string{f[0], "=" + f[1]} // dynamic type T itself (a value type), not *T
+			}
 			if len(f) != 2 {
-				e.fail("split dyn needs: split dyn <param> <Type>")
+				e.fail("split dyn needs: split dyn <param> <Type> [value]")
 			}
 			var next []splitCase
 			for _, base := range cases {
@@ -358,7 +361,7 @@ func (e *Engine) makeParamValue(st *State, name string, t types.Type, fixedLen i
 	switch u := underlying(t).(type) {
 	case *types.Basic:
 		if u.Info()&types.IsString != 0 {
-			return &StrVal{}
+			return &StrVal{abs: mkIntVarR("str$"+name, nil, nil)}
 		}
 		if u.Kind() == types.UnsafePointer {
 			e.fail("unsafe.Pointer parameter %s", name)
@@ -541,12 +544,25 @@ func (e *Engine) verifyVariant(fn *ssa.Function, c *Contract, plan aliasPlan, sc
 					args[i] = &IfaceVal{null: tTrue}
 				default:
 					tn := kind[strings.Index(kind, ":")+1:]
+					byValue := strings.HasPrefix(tn, "=")
+					tn = strings.TrimPrefix(tn, "=")
 					obj := fn.Pkg.Pkg.Scope().Lookup(tn)
 					if obj == nil {
 						e.fail("split dyn %s: unknown type %s", p.Name(), tn)
 					}
-					pt := types.NewPointer(obj.Type())
-					if strings.HasPrefix(kind, "is:") {
+					var pt types.Type = types.NewPointer(obj.Type())
+					if byValue {
+						pt = obj.Type()
+						if strings.HasPrefix(kind, "is:") {
+							args[i] = &IfaceVal{null: tFalse, dyn: pt, val: e.zeroValue(pt)}
+							if s, ok := underlying(pt).(*types.Struct); !ok || s.NumFields() != 0 {
+								e.fail("split dyn ... value: only zero-size struct types are supported")
+							}
+						} else {
+							iv.null = tFalse
+							iv.notDyn = append(iv.notDyn, pt)
+						}
+					} else if strings.HasPrefix(kind, "is:") {
 						pv := e.makeParamValue(st, p.Name()+".(*"+tn+")", pt, -1, 0)
 						args[i] = &IfaceVal{null: tFalse, dyn: pt, val: pv}
 						for _, inv := range e.invariantsOfValue(st, pv, pt, p.Name()+".(*"+tn+")") {
@@ -821,6 +837,37 @@ func (e *Engine) checkFrame(st *State, fr *Frame, fn *ssa.Function, c *Contract,
 				modCells = append(modCells, cr)
 			}
 			dynAllowed = append(dynAllowed, dyn...)
+		}
+	}
+	// abstract states of stream / hash objects that existed at entry: unchanged unless listed
+	ghostAllowed := map[string]bool{}
+	for _, m := range c.Modifies {
+		for _, x := range m.Exprs {
+			if id, isGhost := envOld.ghostStateItem(x); isGhost && id != "" {
+				ghostAllowed[id] = true
+			}
+		}
+	}
+	var gkeys []string
+	for k := range st.ghost {
+		if strings.HasPrefix(k, "state:") {
+			gkeys = append(gkeys, k)
+		}
+	}
+	sort.Strings(gkeys)
+	for _, k := range gkeys {
+		id := strings.TrimPrefix(k, "state:")
+		if ghostAllowed[id] || !strings.HasPrefix(id, "o:") || strings.Contains(id, "!") {
+			continue // objects identified by a region, or created by this call (fresh names carry a "!")
+		}
+		if _, isHash := st.ghost["hashsize:"+id]; isHash {
+			if _, existed := old.ghost["hashsize:"+id]; !existed {
+				continue // created by this call
+			}
+		}
+		nv := st.ghost[k].(*Term)
+		if nv.Key() != old.objState(id).Key() {
+			e.addObligation(st, fr, "frame", "rdstate("+id+")", st.sub(mkEq(nv, old.objState(id))), "abstract state of "+id+" changed but is not listed in `modifies`")
 		}
 	}
 	regByID := map[int]*Region{}
